@@ -404,6 +404,11 @@ func runC09(c *hx.Ctx) {
 		split(gen.RandSize(r, 62))
 	}
 	for i := 0; i < c.N(3000); i++ {
+		level := r.Intn(62)
+		ix := tlog.StoredHashIndex(level, gen.RandSize(r, 61-level))
+		split(ix + int64(r.Intn(3)) - 1)
+	}
+	for i := 0; i < c.N(3000); i++ {
 		count(gen.RandSize(r, 62))
 	}
 	for _, n := range []int64{-1, -2, -3, -4, -7, -8, -1 << 40} {
@@ -420,7 +425,7 @@ func runC09(c *hx.Ctx) {
 	for p := 0; p <= 10; p++ {
 		sizes = append(sizes, 1<<uint(p)-1, 1<<uint(p), 1<<uint(p)+1)
 	}
-	for len(sizes) < c.N(150) {
+	for len(sizes) < c.N(250) {
 		switch r.Intn(3) {
 		case 0:
 			sizes = append(sizes, r.Intn(70))
@@ -517,6 +522,9 @@ func runC09(c *hx.Ctx) {
 		tlImplHash(func() (tlog.Hash, error) { return tlog.TreeHash(0, gen.TableReader(3, nil)) }))
 	for i := 0; i < c.N(150); i++ {
 		d := make([]byte, r.Intn(1+r.Intn(300)))
+		if i < 24 {
+			d = make([]byte, []int{0, 1, 54, 55, 56, 57, 62, 63, 64, 65, 118, 119, 120, 127, 128, 129, 183, 184, 254, 255, 256, 257, 258, 300}[i])
+		}
 		r.Read(d)
 		rh := tlog.RecordHash(d)
 		c.Case("RecordHash", wire.Bytes(d), wire.Bytes(rh[:]))
